@@ -297,7 +297,7 @@ namespace Dune {
     return out;                                                   \
   }                                                               \
   template<class T, std::size_t S, std::size_t A>                                \
-  auto operator SYMBOL(const Simd::Mask<T>& s, const LoopSIMD<T,S,A> &v) { \
+  auto operator SYMBOL(const Simd::Scalar<T> s, const LoopSIMD<T,S,A> &v) { \
     Simd::Mask<LoopSIMD<T,S,A>> out;                                     \
     DUNE_PRAGMA_OMP_SIMD                                          \
     for(std::size_t i=0; i<S; i++){                               \
